@@ -12,6 +12,7 @@ import (
 
 	"pgregory.net/rapid"
 
+	"verifharness/internal/gen"
 	"verifharness/internal/hx"
 )
 
@@ -81,9 +82,13 @@ func genElem(t *rapid.T, d *domain, typ string, hostile bool) Elem {
 	if !hostile {
 		return e
 	}
-	e.SK = rapid.SampledFrom(sizeKindsWeighted).Draw(t, "sk")
-	if e.SK == "2^30" && hx.Shard() >= 4 {
-		e.SK = "2^24" // a 1 GiB allocation costs ~0.15 s and 1-2 GiB of resident memory per process: first four shards only
+	e.SK = rapid.SampledFrom(sizeKindsDrawn).Draw(t, "sk")
+	// A repeated 1 GiB allocation is not lazily mapped any more (the runtime clears reused
+	// address space: ~0.7 s and 1-2 GiB resident per process), so 2^30 is drawn very rarely and
+	// only on the first four shards; the enumeration covers it for every type.
+	// (decided by a hash of the content seed: rapid's integer draws favour small values)
+	if hx.Shard() < 4 && gen.RandBytes(8, e.Seed)[0] == 0 && gen.RandBytes(8, e.Seed)[1] < 43 {
+		e.SK = "2^30"
 	}
 	switch rapid.IntRange(0, 5).Draw(t, "bodymode") {
 	case 0, 1: // as natural
@@ -113,15 +118,11 @@ func fitBody(d *domain, e Elem) Elem {
 	return e
 }
 
-// sizeKindsWeighted: every size kind 6 times, 2^30 once (expensive, see genElem).
-var sizeKindsWeighted = func() []string {
+// sizeKindsDrawn: what the generator draws from (2^30 is handled separately, see genElem).
+var sizeKindsDrawn = func() []string {
 	var w []string
 	for _, k := range sizeKinds {
-		n := 6
-		if k == "2^30" {
-			n = 1
-		}
-		for i := 0; i < n; i++ {
+		if k != "2^30" {
 			w = append(w, k)
 		}
 	}
@@ -379,7 +380,7 @@ var spec = &hx.Spec[Case]{
 	ID:    "C19",
 	Level: "exploration",
 	Rule: "cases = (decoder entry point, input) with input = generated element/message stream (type in all known identifiers + unknown, size field in " +
-		"{0,1,15,16,17,24,31,32,33,40,47,48,63,64,65,exact,exact±1,2^20,2^24,2^30,2^48+64,2^63,MaxUint64}, body shorter/equal/longer than announced), or a fixture " +
+		"{0,1,15,16,17,24,31,32,33,40,47,48,63,64,65,exact,exact±1,2^20,2^21,2^30,2^48+64,2^63,MaxUint64}, body shorter/equal/longer than announced), or a fixture " +
 		"(index.caibx, *.catar, recorded protocol session) truncated at every length or with one 8-byte field overwritten, or raw bytes; " +
 		"non-trivial = the entry point consumed at least one 16-byte header (a size field was interpreted); distinct by (target, input bytes)",
 	Assumptions: []string{
@@ -431,8 +432,8 @@ func gridCases() []Case {
 		for _, typ := range names {
 			for _, sk := range sizeKinds {
 				for _, bd := range []int{0, -4096, 8} {
-					if sk == "2^30" && bd != 0 {
-						continue
+					if sk == "2^30" && (bd != 0 || !(target == "format" || typ == "CaFormatFilename" || typ == "CaProtocolChunk")) {
+						continue // 1 GiB allocations are expensive: every type once, every entry point once
 					}
 					es := []Elem{{T: typ, TV: 0x1111, N: 3, SK: sk, BD: bd, Seed: 5}}
 					if target == "archive" || target == "untar" {
@@ -487,7 +488,7 @@ func enumCases() ([]Case, error) {
 	}
 	out := gridCases()
 	do := func(c Case) { out = append(out, c) }
-	bodyVals := []uint64{0, 1, 1 << 24, sizeHuge48, 1 << 63, ^uint64(0)}
+	bodyVals := []uint64{0, 1, 1 << 21, sizeHuge48, 1 << 63, ^uint64(0)}
 	for _, name := range fixtureNames() {
 		f := fm[name]
 		for _, target := range f.Targets {
@@ -508,7 +509,8 @@ func enumCases() ([]Case, error) {
 					switch fl.Role {
 					case "size":
 						vals = append(append([]uint64(nil), mutSizeVals...), s.Size-1, s.Size+1)
-						if !seenType[s.Name] { // 2^30 (a real 1 GiB allocation when unguarded) once per element type
+						if !seenType[s.Name] && (target == "format" || target == "protomsg") {
+							// 2^30 (a real 1 GiB allocation when unguarded) once per element type and fixture
 							seenType[s.Name] = true
 							vals = append(vals, 1<<30)
 						}
